@@ -464,6 +464,18 @@ pub proof fn lemma_any_push(d0: Seq<Del>, d1: Seq<Del>, ts: Map<TargetId, Target
 {
     assert(d1.push(x).subrange(0, d0.len() as int) =~= d1.subrange(0, d0.len() as int));
 }
+/// [C12.workdirs-all] the work directory of every loaded project has been handed to `remove_dir_all`
+pub open spec fn all_workdirs_deleted(d: Seq<Del>, dirs: Seq<PathBuf>) -> bool {
+    forall|j: int| 0 <= j < dirs.len() ==> d.contains(Del::DirAll(work_dir_of(#[trigger] dirs[j])))
+}
+pub proof fn lemma_workdirs_grow(d1: Seq<Del>, d2: Seq<Del>, dirs: Seq<PathBuf>)
+    requires grows(d1, d2), all_workdirs_deleted(d1, dirs),
+    ensures all_workdirs_deleted(d2, dirs),
+{
+    assert forall|j: int| 0 <= j < dirs.len() implies d2.contains(Del::DirAll(work_dir_of(#[trigger] dirs[j]))) by {
+        lemma_grows_contains(d1, d2, Del::DirAll(work_dir_of(dirs[j])));
+    }
+}
 /// [C12.outputs-all] every output resource of the target has been dealt with
 pub open spec fn outputs_cleaned(t: Target, d: Seq<Del>, p: Seq<PathBuf>) -> bool {
     t.out() matches Some(o) ==> forall|i: int| 0 <= i < o.files@.len() ==> res_cleaned(#[trigger] o.files@[i], d, p)
@@ -533,6 +545,7 @@ pub proof fn lemma_any_extend(d0: Seq<Del>, d1: Seq<Del>, d2: Seq<Del>, ts: Map<
         /*[C07.exit]*/ final(w).run_failed ==> r is Err,
         /*[C12.scope]*/ requested_targets is None ==> final(w).steps.len() == 0,
         /*[C12.state-all,C20.clean-through]*/ (arg_matches.has(CLEAN@) && final(w).steps.len() > 0) ==> all_states_deleted(final(w).deleted, targets@),
+        /*[C12.workdirs-all]*/ (arg_matches.has(CLEAN@) && requested_targets is None && r is Ok) ==> all_workdirs_deleted(final(w).deleted, project_dirs@),
         /*[C12.outputs-all,C20.clean-through]*/ (arg_matches.has(CLEAN@) && (r is Ok || final(w).steps.len() > 0)) ==> all_outputs_cleaned(targets@, final(w).deleted, final(w).probed),
 //@pre
         broadcast use axiom_tid_key_model;
@@ -564,10 +577,12 @@ pub proof fn lemma_any_extend(d0: Seq<Del>, d1: Seq<Del>, d2: Seq<Del>, ts: Map<
                         /*[C12.scope]*/ !named,
                         it1.seq() == dirs,
                         all_new_any(old(w).deleted, w.deleted, ts, dirs, named),
+                        /*[C12.workdirs-all]*/ forall|j: int| 0 <= j < it1.index@ ==> w.deleted.contains(Del::DirAll(work_dir_of(#[trigger] dirs[j]))),
 //@loopbody
                     proof {
                         assert(dirs[it1.index@ as int] == project_dir);
                         lemma_any_push(old(w).deleted, w.deleted, ts, dirs, named, Del::DirAll(work_dir_of(dirs[it1.index@ as int])));
+                        lemma_push_keeps(w.deleted, Del::DirAll(work_dir_of(dirs[it1.index@ as int])));
                     }
 //@loop 2 binder=it2
                 invariant
@@ -575,6 +590,7 @@ pub proof fn lemma_any_extend(d0: Seq<Del>, d1: Seq<Del>, d2: Seq<Del>, ts: Map<
                     it2.seq().unref().to_set() == targets@.values(),
                     all_new_any(old(w).deleted, w.deleted, ts, dirs, named),
                     /*[C12.state-all,C20.clean-through]*/ named ==> all_states_deleted(w.deleted, ts),
+                    /*[C12.workdirs-all]*/ !named ==> all_workdirs_deleted(w.deleted, dirs),
                     /*[C12.outputs-all,C20.clean-through]*/ forall|j: int| 0 <= j < it2.index@ ==> outputs_cleaned(#[trigger] it2.seq().unref()[j], w.deleted, w.probed),
 //@loopbody
                 broadcast use axiom_tid_key_model;
@@ -596,6 +612,7 @@ pub proof fn lemma_any_extend(d0: Seq<Del>, d1: Seq<Del>, d2: Seq<Del>, ts: Map<
                 proof {
                     // [C12.outputs-all] this target is dealt with, and the earlier ones stay dealt with (the logs only grew)
                     assert(grows(d1, w.deleted) && grows(p1, w.probed));
+                    if !named { lemma_workdirs_grow(d1, w.deleted, dirs); }
                     assert forall|j: int| 0 <= j < it2.index@ + 1 implies outputs_cleaned(#[trigger] it2.seq().unref()[j], w.deleted, w.probed) by {
                         if j < it2.index@ {
                             lemma_outputs_grow(it2.seq().unref()[j], d1, p1, w.deleted, w.probed);
